@@ -4,6 +4,7 @@ import (
 	"encoding/json"
 	"fmt"
 	"sort"
+	"sync"
 	"time"
 )
 
@@ -136,9 +137,13 @@ type Result struct {
 	HarnessErr  string         `json:"harness_err,omitempty"`
 	FaultFree   bool           `json:"fault_free"`
 	BootFailed  bool           `json:"boot_failed,omitempty"`
+
+	mu sync.Mutex // overlapping (twin) requests record concurrently
 }
 
 func (r *Result) cover(key string) {
+	r.mu.Lock()
+	defer r.mu.Unlock()
 	if r.Cover == nil {
 		r.Cover = map[string]int{}
 	}
@@ -146,6 +151,8 @@ func (r *Result) cover(key string) {
 }
 
 func (r *Result) probe(key string) {
+	r.mu.Lock()
+	defer r.mu.Unlock()
 	if r.Probes == nil {
 		r.Probes = map[string]int{}
 	}
@@ -153,6 +160,8 @@ func (r *Result) probe(key string) {
 }
 
 func (r *Result) fault(key string) {
+	r.mu.Lock()
+	defer r.mu.Unlock()
 	if r.Faults == nil {
 		r.Faults = map[string]int{}
 	}
